@@ -89,14 +89,18 @@ def tail_rules(ctx, prog):
             guard = any('SFE_AIFF_RW_SSND_NOT_LAST' in rh.s(n) for n in rh.walk() if n['k'] == 'ReturnStmt') or any(n.get('n') == 'SFE_AIFF_RW_SSND_NOT_LAST' for n in rh.walk())
             ctx.ob('TAIL-STALE', w.name, guard, w.loc(w.body), 'frozen exception: aiff_read_header refuses SFM_RDWR unless SSND is the last chunk (SFE_AIFF_RW_SSND_NOT_LAST present: %s)' % guard, None)
             continue
-        dl = [w.s(r) for lv, a, r in assigned_lvalues(w) if lv == 'psf->datalength' and r is not None]
+        # the header writer together with the static helpers of its file that it calls (the calc_length block may have been split off)
+        group_ = [w] + [g_ for c_ in w.calls() for g_ in prog.fns.get(c_.get('callee') or '', []) if g_.static and g_.file == w.file]
+        dl = [g_.s(r) for g_ in group_ for lv, a, r in assigned_lvalues(g_) if lv == 'psf->datalength' and r is not None]
         want = '((psf->sf.frames * psf->bytewidth) * psf->sf.channels)'
         arm = None
-        for n in w.walk():
-            if n['k'] == 'IfStmt' and w.s(n['cond']) == 'psf->dataend' and n.get('else') is not None:
-                if any(lv == 'psf->datalength' and r is not None and w.s(r) == want for lv, a, r in assigned_lvalues(w, n['else'])):
-                    arm = n
-        ctx.ob('TAIL-STALE', w.name, arm is not None, w.loc(arm) if arm else w.loc(w.body), 'with dataend unknown the data length is %s' % ('taken from the frame count' if arm else
+        for g_ in group_:
+            for n in g_.walk():
+                if n['k'] == 'IfStmt' and g_.s(n['cond']) == 'psf->dataend' and n.get('else') is not None:
+                    if any(lv == 'psf->datalength' and r is not None and g_.s(r) == want for lv, a, r in assigned_lvalues(g_, n['else'])):
+                        arm = n
+                        w_arm = g_
+        ctx.ob('TAIL-STALE', w.name, arm is not None, w_arm.loc(arm) if arm else w.loc(w.body), 'with dataend unknown the data length is %s' % ('taken from the frame count' if arm else
                'taken from the file length only (%s): stale chunks after the data are counted as audio by a header update in SFM_RDWR mode' % dl), None)
 
 
@@ -129,6 +133,13 @@ def run(ctx):
         for lv, a, r in assigned_lvalues(f, blk['then']):
             if lv in facts and r is not None:
                 facts[lv].append(f.s(r))
+        # a calc_length block that was moved into a static helper of the same file still is the calc_length block
+        for c_ in f.calls(root=f.N[blk['then']]):
+            for g_ in prog.fns.get(c_.get('callee') or '', []):
+                if g_.static and g_.file == f.file:
+                    for lv, a, r in assigned_lvalues(g_):
+                        if lv in facts and r is not None:
+                            facts[lv].append(g_.s(r))
         miss = []
         if name not in FILELEN_EXC and 'psf_get_filelen(psf)' not in facts['psf->filelength']:
             miss.append('filelength not taken from psf_get_filelen (found %s)' % facts['psf->filelength'])
